@@ -271,6 +271,7 @@ class _Conv:
         if isinstance(e, E.TypecastNode):
             c = ast.Call(func=ast.Name(id="__cast__", ctx=ast.Load()), args=[self.expr(e.operand)], keywords=[])
             c.cast_to = str(e.type)
+            c.cast_from = str(getattr(e.operand, "type", ""))
             return c
         if isinstance(e, E.PrimaryCmpNode):
             ops, comps = [self.cmpop(e.operator)], [self.expr(e.operand2)]
